@@ -9,6 +9,10 @@
   (through the repaired one-byte adapter).
 -/
 import GoMC.Lemmas.NBTDecode
+import GoMC.Lemmas.NBTTyped
+import GoMC.Lemmas.NBTTotal
+import GoMC.Props.DYNBT
+import GoMC.Props.C04
 namespace GoMC.Props.C03
 open GoMC GoMC.Rd GoMC.Model.NBT GoMC.Lemmas.NBTDecode
 open GoMC.Spec (NBT encPayload encKvs encDoc Format docName be32)
@@ -216,6 +220,76 @@ theorem C03_neg_len_raw_list (fuel : Nat) (e : Byte) (n : BitVec 32) (rest : Byt
    well-formed document, every strict prefix), and the local theorems `C03_unknown_tag_*`, `C03_neg_len_*`
    for the two functions every position of a document goes through; an error of a nested call ends the whole
    `Decode` by `Rd.bind_err`. -/
+
+
+/-! ### the other entry points the property lists: `dynbt.Value`, `StringifiedMessage`, `RawMessage.String`
+
+Their models and proofs belong to the DYNBT and C04 work packages; re-exported here so that C03's obligations
+(and `./check C03`, which also runs their malformed streams) cover every NBT decoding entry point. -/
+
+theorem C03_total_dyn (tag : Byte) (s : Stream) : (Model.DynBT.unmarshal tag s).1 ≠ Res.panic :=
+  GoMC.Props.DYNBT.DYNBT_total tag s
+
+theorem C03_total_dyn_doc (file : Bool) (s : Stream) : (Model.DynBT.decodeDoc file s).1 ≠ Res.panic :=
+  GoMC.Props.DYNBT.DYNBT_total_doc file s
+
+/-- `dynbt`: the number of loop iterations is bounded by the bytes consumed (no loop without input) -/
+theorem C03_work_dyn : type_of% @GoMC.Props.DYNBT.DYNBT_work := @GoMC.Props.DYNBT.DYNBT_work
+theorem C03_neg_len_dyn_array : type_of% @GoMC.Props.DYNBT.DYNBT_neg_len_array := @GoMC.Props.DYNBT.DYNBT_neg_len_array
+theorem C03_neg_len_dyn_string : type_of% @GoMC.Props.DYNBT.DYNBT_neg_len_string := @GoMC.Props.DYNBT.DYNBT_neg_len_string
+theorem C03_neg_len_dyn_list : type_of% @GoMC.Props.DYNBT.DYNBT_neg_len_list := @GoMC.Props.DYNBT.DYNBT_neg_len_list
+theorem C03_unknown_tag_dyn : type_of% @GoMC.Props.DYNBT.DYNBT_unknown_tag := @GoMC.Props.DYNBT.DYNBT_unknown_tag
+theorem C03_unknown_tag_dyn_list : type_of% @GoMC.Props.DYNBT.DYNBT_unknown_tag_list := @GoMC.Props.DYNBT.DYNBT_unknown_tag_list
+theorem C03_unknown_tag_dyn_field : type_of% @GoMC.Props.DYNBT.DYNBT_unknown_tag_field := @GoMC.Props.DYNBT.DYNBT_unknown_tag_field
+theorem C03_prefix_dyn : type_of% @GoMC.Props.DYNBT.DYNBT_prefix := @GoMC.Props.DYNBT.DYNBT_prefix
+theorem C03_prefix_dyn_doc : type_of% @GoMC.Props.DYNBT.DYNBT_prefix_doc := @GoMC.Props.DYNBT.DYNBT_prefix_doc
+
+/-- `StringifiedMessage.UnmarshalNBT` (the binary → text walker): total, with its work bound (fuel `2n + 2`) -/
+theorem C03_total_snbt : type_of% @GoMC.Props.C04.C04_walker_total := @GoMC.Props.C04.C04_walker_total
+/-- `RawMessage.String()` -/
+theorem C03_total_rawString : type_of% @GoMC.Props.C04.C04_rawString_total := @GoMC.Props.C04.C04_rawString_total
+theorem C03_work_snbt : type_of% @GoMC.Props.C04.C04_walker_consumes := @GoMC.Props.C04.C04_walker_consumes
+theorem C03_unknown_tag_snbt : type_of% @GoMC.Props.C04.C04_walker_unknown_tag := @GoMC.Props.C04.C04_walker_unknown_tag
+theorem C03_neg_len_snbt : type_of% @GoMC.Props.C04.C04_walker_negative_length := @GoMC.Props.C04.C04_walker_negative_length
+theorem C03_prefix_snbt : type_of% @GoMC.Props.C04.C04_walker_prefix := @GoMC.Props.C04.C04_walker_prefix
+
+/-! ### typed destinations (every type of the universe `GoMC.Model.GoVal`): the result depends on the bytes, not on
+how they arrive, and a successful decode never depends on what follows the bytes it consumed -/
+
+theorem C03_fragInv_typed (cx : Model.Go.SnbtCarrier) (hsn : ∀ tag, Rd.FragInv (cx.unmarshal tag))
+    (net disallow : Bool) (ty : Model.Go.GoType) : Rd.FragInv (Model.Go.decodeTyped cx net disallow ty) := by
+  intro s t h
+  have : Model.Go.typedFuel s ty ty.zero = Model.Go.typedFuel t ty ty.zero := by
+    unfold Model.Go.typedFuel fuelFor; rw [h.1]
+  unfold Model.Go.decodeTyped
+  rw [this]
+  exact GoMC.Lemmas.NBTTyped.closedC_decodeTypedF closed_fragInv Rd.fragInv_crash cx
+    (fun tag => GoMC.Props.DYNBT.DYNBT_frag tag) hsn _ net disallow ty s t h
+
+theorem C03_extStable_typed (cx : Model.Go.SnbtCarrier) (hsn : ∀ tag, Rd.ExtStable (cx.unmarshal tag))
+    (fuel : Nat) (net disallow : Bool) (ty : Model.Go.GoType) :
+    Rd.ExtStable (Model.Go.decodeTypedF cx fuel net disallow ty) :=
+  GoMC.Lemmas.NBTTyped.closedC_decodeTypedF closed_extStable Rd.extStable_crash cx
+    (fun tag => GoMC.Props.DYNBT.DYNBT_ext_stable tag) hsn fuel net disallow ty
+
+
+/-- **Typed destinations are total.** `Decode(&v)` with `v` a fresh variable of ANY type of the universe
+(`GoMC.Model.GoVal`: scalars, strings, slices, arrays, maps, structs with any tags and embedding, pointers,
+interfaces, carriers, nested at will), with or without `DisallowUnknownFields`, in both formats, on ANY source:
+a value or an error, never a panic. (`hsn`: `StringifiedMessage.UnmarshalNBT` does not panic — `C03_total_snbt`.)
+The proof shows on the way that destinations stay well-shaped values of their type and that the index paths of
+every field table exist in the struct type (`Lemmas/NBTTotal`: `safe_unmarshal`, `typeFields_paths`). -/
+theorem C03_total_typed (cx : Model.Go.SnbtCarrier) (hsn : ∀ tag s, (cx.unmarshal tag s).1 ≠ Res.panic)
+    (net disallow : Bool) (ty : Model.Go.GoType) (s : Stream) :
+    (Model.Go.decodeTyped cx net disallow ty s).1 ≠ Res.panic :=
+  GoMC.Lemmas.NBTTotal.decodeTyped_total cx net disallow ty
+    (fun tag s => GoMC.Props.DYNBT.DYNBT_total tag s) hsn s
+
+/-- … instantiated with the SNBT work package's model of `StringifiedMessage` (any float formatting / parsing) -/
+theorem C03_total_typed_snbt (fm : Model.SNBT.FmtOracle) (tagType : Bytes → Byte) (marshal : Bytes → Res Bytes)
+    (net disallow : Bool) (ty : Model.Go.GoType) (s : Stream) :
+    (Model.Go.decodeTyped { tagType, marshal, unmarshal := Model.SNBT.unmarshalNBT fm } net disallow ty s).1 ≠ Res.panic :=
+  C03_total_typed _ (fun tag s => GoMC.Props.C04.C04_walker_total fm tag s) net disallow ty s
 
 /-! non-vacuity: the prefix theorem applies to a concrete document and cut -/
 example : ∀ b, (decodeAny true (Stream.ofBytes [1#8])).1 ≠ Res.ok b :=
